@@ -67,11 +67,17 @@ def search(ctx):
                     for i, ch in enumerate(s):
                         if ch in "-+~_^:" and s[i:] not in tails:
                             tails.append(s[i:])
+            # ... and neighbours of those tails: a letter behind a final digit, the final character cut, a zero in front
+            for tl in list(tails)[:8]:
+                for v in ((tl + "a") if tl[-1:].isdigit() else None, tl[:-1] if len(tl) > 2 else None,
+                          (tl[0] + "0" + tl[1:]) if tl[1:2].isdigit() else None, tl[0] + "1a"):
+                    if v and v not in tails:
+                        tails.append(v)
             bases = [t for t, _ in A.valid_pool(name, rng, 3)] + ["1.0", "2"]
             recomb = []
             for base in bases:
                 recomb.append(base)
-                for tl in tails[:6]:
+                for tl in tails[:14]:
                     recomb.append(base + tl)
             texts = recomb[:cap // 2] + [t for t in texts if t not in recomb]
             pool = []
